@@ -88,6 +88,31 @@ def gen(tier, rng):
         if ln > 5:
             b[5] = (b[5] & 0xe0) | rng.choice([0, 1, 2])
         cases.append("avcc " + hx(bytes(b)))
+    # sibling records next to each other (cases run in order within a process): the same PPS NAL bytes with an SPS of another
+    # shape under the same id - picture size (slice-group bounds), 4:4:4 (number of 8x8 lists), bit depth (QP range) -
+    # and the same record twice: create_context is a function of the record alone
+    import copy
+    for i in range(150 if tier == "quick" else 3000):
+        sa = g.gen_sps(rng, sps_id=0, small=True, force={"profile_idc": 244, "chroma_format_idc": rng.choice([1, 3]), "w": 19, "h": 19})
+        sb = copy.deepcopy(sa)
+        k = i % 3
+        if k == 0:
+            sb["w"], sb["h"] = 1, 1
+        elif k == 1:
+            sb["chroma_format_idc"] = 1 if sa["chroma_format_idc"] == 3 else 3
+        else:
+            sb["bit_depth_luma_minus8"] = 6 if sa["bit_depth_luma_minus8"] == 0 else 0
+        p = g.gen_pps(rng, sa, pps_id=rng.choice([0, 1]), force={"num_slice_groups_minus1": 1, "map_type": rng.choice([0, 2, 3, 6])} if k == 0 else {})
+        if k == 0:
+            p["run_lengths"] = [100, 100]
+        if k == 1:
+            p["ext"], p["transform8x8"], p["pic_scaling_matrix"] = True, True, True
+        if k == 2:
+            p["pic_init_qp_minus26"] = -26 - 6 * max(sa["bit_depth_luma_minus8"], sb["bit_depth_luma_minus8"])
+        pn = g.pps_nal(p, rng)
+        ra = build(rng, [g.sps_nal(sa, rng)], [pn])
+        rb = build(rng, [g.sps_nal(sb, rng)], [pn])
+        cases += ["avcc " + hx(ra), "avcc " + hx(rb), "avcc " + hx(ra), "avcc " + hx(ra)]
     # fixed header bytes: every profile x selected compatibility flags x the level bytes whose meaning depends on the flags
     for prof in range(256):
         for compat in (0x00, 0x10, 0xef, 0xff, rng.randrange(256)):
